@@ -17,7 +17,10 @@ import hashlib
 VERIF = os.path.dirname(os.path.dirname(os.path.abspath(__file__)))
 REPO = os.environ.get("ABNF_REPO", "/repo")
 REPO_SRC = os.path.join(REPO, "src")
-LEAN_DIR = os.path.join(VERIF, "lean")
+LEAN_SRC_DIR = os.path.join(VERIF, "lean")
+# runs against a scratch copy of the repository (seeded-change experiments) build in their own copy of the lake
+# project, so that the regenerated data of /repo itself is never disturbed
+LEAN_DIR = LEAN_SRC_DIR if REPO == "/repo" else os.path.join(VERIF, "run", "lean-alt")
 DRIVER = os.path.join(LEAN_DIR, ".lake", "build", "bin", "driver")
 RUN_DIR = os.path.join(VERIF, "run")
 # evidence/ is only written by runs against /repo itself; runs against a scratch copy (seeded-change
